@@ -7,6 +7,7 @@ API, and then, for EVERY live node and EVERY key:
 
   stored : sym_hasattr / sym_getattr / sym_items give what the spec stores (a placeholder stays a
            placeholder of the right class; a node is the *same object* that is bound to the spec node);
+  repr   : repr() / str() of a ContextualObject (which print inferred values) return;
   read   : every accessor form (`o.k`, `o[k]`, `l[i]`, iteration, `sym_inferred`, `sym_inferred` with a
            default, `sym_inferrable`) returns obs[n][k] -- value, identical node, or AttributeError
            (KeyError for `d[k]`, as Dict.__getitem__ documents);
@@ -89,6 +90,20 @@ def _exc_name(e: BaseException) -> str:
     if isinstance(e, c):
       return c.__name__
   return type(e).__name__
+
+
+def _safe(v) -> str:
+  """repr without formatting symbolic values (the repr of a ContextualObject infers its attributes)."""
+  if isinstance(v, pg.Symbolic):
+    return f'<{type(v).__name__} at {v.sym_path}>'
+  if isinstance(v, (list, tuple)):
+    return '[' + ', '.join(_safe(x) for x in v) + ']'
+  if v is _SENTINEL:
+    return '<default>'
+  try:
+    return repr(v)[:120]
+  except Exception as e:  # pylint: disable=broad-except
+    return f'<unprintable {type(v).__name__}: {type(e).__name__}>'
 
 
 class Replayer:
@@ -194,8 +209,8 @@ class Replayer:
     self.scopes.pop().__exit__(None, None, None)
 
   def do_Read(self, st, n, k):
-    got = self._read_forms(self.obj[n], k)[0][1]
-    self._cmp_read('Read', n, k, st['out'], 'call', got)
+    form, got = self._read_forms(self.obj[n], k)[0]
+    self._cmp_read(st, n, k, st['out'], form, got)
 
   def close(self):
     while self.scopes:
@@ -296,7 +311,12 @@ class Replayer:
     forms.append(('sym_inferred_default', attempt(lambda: o.sym_inferred(key, _SENTINEL))))
     return forms
 
-  def _cmp_read(self, actname: str, n: int, k: int, want: int, form: str, got):
+  def _read_sig(self, st: dict, n: int, k: int, wclass: str, gclass: str) -> dict:
+    # `coded_idxerr` comes out of the TLC state: the walk as coded (Mirror) aborts with IndexError on this read
+    return {'clause': 'read', 'want': wclass, 'got': gclass, 'keykind': 'index' if k >= 1000 else 'name',
+            'coded_idxerr': bool(st['coded'][n - 1][k])}
+
+  def _cmp_read(self, st: dict, n: int, k: int, want: int, form: str, got):
     """Compares one read outcome with the spec's observation; records (does not raise) a divergence."""
     self.reads += 1
     status, val = got
@@ -321,9 +341,8 @@ class Replayer:
                                             'node' if isinstance(val, pg.Symbolic) else 'value')
     self.divergences.append({
         'clause': 'read',
-        'sig': {'action': actname, 'clause': 'read', 'want': wclass, 'got': gclass,
-                'keykind': 'index' if k >= 1000 else 'name'},
-        'detail': f'node {n} key {pykey(k)!r} via {form}: spec says {want}, code gives {status}: {val!r:.120}'})
+        'sig': self._read_sig(st, n, k, wclass, gclass),
+        'detail': f'node {n} key {pykey(k)!r} via {form}: spec says {want}, code gives {status}: {_safe(val)}'})
 
   def _same(self, val, want: int) -> bool:
     if want == PNONE:
@@ -342,7 +361,7 @@ class Replayer:
         if isinstance(st['obs'][n - 1][k], int) and spec_get(st, n, k) in (INFER, CTX):
           self.hit('placeholder_reads')
         for form, got in self._read_forms(o, k):
-          self._cmp_read(actname, n, k, obs[k], form, got)
+          self._cmp_read(st, n, k, obs[k], form, got)
         # sym_inferrable(key) <=> the read succeeds
         try:
           inf = o.sym_inferrable(pykey(k))
@@ -350,8 +369,7 @@ class Replayer:
           inf = _exc_name(e)
         if inf is not (obs[k] != ERR):
           self.divergences.append({'clause': 'read',
-                                   'sig': {'action': actname, 'clause': 'read', 'want': 'ERR' if obs[k] == ERR else 'value',
-                                           'got': f'inferrable={inf}', 'keykind': 'index' if k >= 1000 else 'name'},
+                                   'sig': self._read_sig(st, n, k, 'ERR' if obs[k] == ERR else 'value', f'inferrable={inf}'),
                                    'detail': f'node {n} key {pykey(k)!r}: sym_inferrable gives {inf}, spec read is {obs[k]}'})
       if isinstance(o, pg.List) and present:
         # iteration yields the inferred values (or fails as the first failing element does)
@@ -367,23 +385,66 @@ class Replayer:
         self.reads += 1
         if not good:
           self.divergences.append({'clause': 'read',
-                                   'sig': {'action': actname, 'clause': 'read', 'want': 'ERR' if ERR in want else 'value',
-                                           'got': got[0] if got[0] != 'ok' else 'value', 'keykind': 'index'},
-                                   'detail': f'node {n}: iteration gives {got!r:.160}, spec says {want}'})
+                                   'sig': {'clause': 'read', 'want': 'ERR' if ERR in want else 'value',
+                                           'got': got[0] if got[0] != 'ok' else 'value', 'keykind': 'iteration',
+                                           'coded_idxerr': any(st['coded'][n - 1][k] for k in present)},
+                                   'detail': f'node {n}: iteration gives {got[0]}: {_safe(got[1])}, spec says {want}'})
         else:
           self.hit('read:iter')
+
+  def check_repr(self, st: dict):
+    """repr / str of a ContextualObject print inferred values: they must return (clause `repr`)."""
+    for n, o in self.obj.items():
+      if not isinstance(o, CO) or st['kind'][n - 1] == 'free':
+        continue
+      for fn in (repr, str):
+        try:
+          fn(o)
+          self.hit('repr:ok')
+        except Exception as e:  # pylint: disable=broad-except
+          self.divergences.append({
+              'clause': 'repr',
+              'sig': {'clause': 'repr', 'got': _exc_name(e), 'cyclic': bool(st['cyc'][n - 1])},
+              'detail': f'node {n}: {fn.__name__}() raised {_exc_name(e)}; TLC says resolved values '
+                        f'{"can" if st["cyc"][n - 1] else "cannot"} lead back to a node being printed'})
+      if st['cyc'][n - 1]:
+        self.hit('repr:cyclic')
 
   # ---- the behaviour ------------------------------------------------------------------------
   def compare(self, actname: str, st: dict):
     self.check_stored(actname, st)
     before = self.snapshot(st)
     self.check_reads(actname, st)
+    self.check_repr(st)
     after = self.snapshot(st)
     if before != after:
       bad = [n for n in before if before[n] != after.get(n)]
       raise Divergence('purity', {'action': actname, 'clause': 'purity'},
                        f'reading changed the stored state of nodes {bad}')
     self.check_stored(actname, st)
+
+  def _count_resolution_changes(self, prev: dict, st: dict):
+    """Vacuity counters (diff of two TLC observation tables): a placeholder that stayed in place reads differently."""
+    act = st['act']
+    changed = 0
+    for n in range(1, len(st['kind']) + 1):
+      if prev['kind'][n - 1] == 'free' or st['kind'][n - 1] == 'free':
+        continue
+      for k in all_keys(st):
+        a, b = spec_get(prev, n, k), spec_get(st, n, k)
+        if a in (INFER, CTX) and a == b and prev['obs'][n - 1][k] != st['obs'][n - 1][k]:
+          changed += 1
+    if not changed:
+      return
+    self.hit('resolution_changed', changed)
+    if act[0] in ('EnterOv', 'ExitOv'):
+      self.hit('resolution_changed:scope', changed)
+    elif act[0] in ('Set', 'Insert') and 1 <= act[-1] <= len(st['kind']):
+      self.hit('resolution_changed:attach', changed)
+    elif act[0] in ('Set', 'Del') and 1 <= spec_get(prev, act[1], act[2]) <= len(st['kind']):
+      self.hit('resolution_changed:detach', changed)
+    else:
+      self.hit('resolution_changed:write', changed)
 
   def replay(self, beh: List[tlc.Step]) -> Optional[dict]:
     """Returns None if the behaviour conforms, else the first state-corrupting divergence.
@@ -411,6 +472,7 @@ class Replayer:
         self.hit(act[0])
         if act[0] in ('Set', 'Insert') and act[-1] in self.obj and act[-1] < 100:
           self.hit('attach')
+        self._count_resolution_changes(beh[step - 1].state, st)
         self.compare(act[0], st)
         for d in self.divergences[n_before:]:
           d['step'] = step
@@ -469,20 +531,52 @@ def replay_simulated(chk: Check, cfg: str, num: int, depth: int, seed: int, batc
   return hits
 
 
+def _script_behaviour(cfg: str, hist: List[Any], name: str):
+  """TLC recomputes the states of a given history (intended semantics of `cfg`, all arguments enumerated)."""
+  cfg_text = (tlc.SPECS / cfg).read_text()
+  cfg_text = re.sub(r'SPECIFICATION\s+\w+', 'SPECIFICATION SpecScript', cfg_text)
+  cfg_text = re.sub(r'SimK = \d+', 'SimK = 0', cfg_text)
+  cfg_text = re.sub(r'^(INVARIANT|PROPERTY|CONSTRAINT|VIEW).*$', '', cfg_text, flags=re.M)
+  d = tlc.workdir(name)
+  (d / 'script.json').write_text(json.dumps(hist))
+  (d / 'replay.cfg').write_text(cfg_text)
+  behaviours, r = tlc.simulate('Inferred', str(d / 'replay.cfg'), num=1, depth=max(1, len(hist)), seed=1,
+                               name=name + '-run', env={'SCRIPT_FILE': str(d / 'script.json')}, timeout=3000)
+  return behaviours, r
+
+
+def counterexample_history(r: 'tlc.TLCResult') -> List[Any]:
+  """The calls of a TLC counter-example (the `act` history variable of its states)."""
+  if r.error_trace:
+    return [s['state']['act'] for s in r.error_trace]
+  m = re.search(r'is violated by the initial state:\n(.*?)\n\n', r.out, flags=re.S)
+  if m:
+    from . import tlaval  # pylint: disable=import-outside-toplevel
+    return [tlaval.parse_state(m.group(1).strip())['act']]
+  return []
+
+
+def replay_counterexample(chk: Check, cfg: str, hist: List[Any]) -> None:
+  """A counter-example TLC found in the design as coded (Mirror) is executed on the real code: the intended
+  states of the same history are recomputed by TLC and the history is replayed like any other behaviour."""
+  behaviours, r = _script_behaviour(cfg, hist, 'g02-mirror-ce')
+  chk.add_tlc(r, count_states=False)
+  chk.transitions += max(1, r.generated)
+  chk.require(len(behaviours) == 1 and len(behaviours[0]) == len(hist),
+              'the intended specification does not admit the history of the as-coded counter-example')
+  before = (len(chk.violations), sum(chk.known_hits.values()))
+  replay_behaviours(chk, cfg, behaviours)
+  reproduced = (len(chk.violations), sum(chk.known_hits.values())) != before
+  chk.notes['as_coded_counterexample'] = {'history': hist, 'reproduced_on_code': reproduced}
+  chk.count('as_coded_counterexample_reproduced' if reproduced else 'as_coded_counterexample_not_reproduced')
+
+
 def replay_file(chk: Check, path: str) -> None:
   """./check G02 --replay FILE: TLC recomputes the states of the recorded history, the driver replays them."""
   rec = json.loads(open(path).read())
   det = rec['detail']
   hist = det['history']
-  cfg_text = (tlc.SPECS / det['cfg']).read_text()
-  cfg_text = re.sub(r'SPECIFICATION\s+\w+', 'SPECIFICATION SpecScript', cfg_text)
-  cfg_text = re.sub(r'SimK = \d+', 'SimK = 0', cfg_text)
-  cfg_text = re.sub(r'^(INVARIANT|PROPERTY|CONSTRAINT|VIEW).*$', '', cfg_text, flags=re.M)
-  d = tlc.workdir('g02-replay-script')
-  (d / 'script.json').write_text(json.dumps(hist))
-  (d / 'replay.cfg').write_text(cfg_text)
-  behaviours, r = tlc.simulate('Inferred', str(d / 'replay.cfg'), num=1, depth=len(hist), seed=1,
-                               name='g02-replay-run', env={'SCRIPT_FILE': str(d / 'script.json')}, timeout=3000)
+  behaviours, r = _script_behaviour(det['cfg'], hist, 'g02-replay-script')
   chk.add_tlc(r, count_states=False)
   chk.states += 1
   chk.transitions += max(1, r.generated)
